@@ -316,7 +316,7 @@ def run_judge(ctx, label, obs, mode="impl"):
     d = ctx.sub("judge-" + label)
     path = os.path.join(d, "obs.ndjson")
     tlc.write_ndjson(path, obs)
-    res = tlc.run_tlc("TypeInferObs", OBS_CFG, d, env={"OBS": path, "MODE": mode}, workers=WORKERS, timeout=3000)
+    res = tlc.run_tlc("TypeInferObs", OBS_CFG, d, env={"OBS": path, "MODE": mode, "JAVA_TOOL_OPTIONS": "-Xss512m"}, workers=WORKERS, timeout=3000)
     if res.error or res.violated:
         raise MachineryError("TypeInferObs failed (%s): %s %s" % (label, res.violated, res.error))
     n = len(obs)
